@@ -674,7 +674,14 @@ def rule_pure(run):
     pure_rule(run, [fi for name, fi in sorted(cls.methods.items()) if name.startswith('write')])
 
 
+def rule_pair(run):
+    from .c08 import pair_rule
+    pair_rule(run, ['t2data'], set(['t2data']), floor=4,
+              only=lambda fi, owner: fi.name.startswith('read_') or fi.name in ('__init__', 'add_generator', 'delete_generator', 'clear_generators'))
+
+
 def check(run):
+    run.guarded('PAIR', rule_pair)
     run.guarded('PURE', rule_pure)
     run.guarded('DISP', rule_disp_kw_recseq_term)
     run.guarded('ENDKW', rule_endkw)
